@@ -2246,6 +2246,38 @@ pub fn intern_pending<'db>(db: &'db dyn TyckDb) -> ScopedData<'db> {
     )
 }
 
+/// One call of a client that hands a resolved program to the session.
+///
+/// [`intern_pending`] has no query key, so salsa memoizes its first result for
+/// the life of the database. Long-lived sessions key the hand-over by a ticket
+/// that is unique per call, so every program crossing the slot is interned.
+#[salsa::interned]
+pub struct PendingTicket<'db> {
+    pub number: u64,
+}
+
+/// [`intern_pending`] for one ticket: interns the program currently in the slot.
+#[salsa::tracked]
+pub fn intern_pending_for<'db>(db: &'db dyn TyckDb, _ticket: PendingTicket<'db>) -> ScopedData<'db> {
+    let parts = db
+        .pending_parts()
+        .lock()
+        .expect("pending check slot poisoned")
+        .take()
+        .expect("pending check slot is empty");
+    let parts = match std::sync::Arc::try_unwrap(parts) {
+        | Ok(parts) => parts,
+        | Err(_) => panic!("pending parts are still shared"),
+    };
+    ScopedData::new(
+        db,
+        std::sync::Arc::new(parts.spans),
+        parts.prim,
+        std::sync::Arc::new(parts.scoped),
+        parts.root,
+    )
+}
+
 /// The complete result of checking one source snapshot.
 #[derive(Clone, Debug)]
 pub struct TyckOutput {
